@@ -212,7 +212,7 @@ func rowWriters(p *core.Program) (writers []rowWriter, writerFns map[*ssa.Functi
 			return false
 		}
 		n := core.NamedOf(r.Signature.Recv().Type())
-		return n != nil && (n.Obj().Name() == "btreeRows" || n.Obj().Name() == "leveldbRows")
+		return n != nil && (core.TName(n) == "btreeRows" || core.TName(n) == "leveldbRows")
 	}
 	for changed := true; changed; {
 		changed = false
